@@ -833,3 +833,4 @@ def run(prog, R, tier):
     r_zerolen(prog, R)
     r_class(prog, R)
     r_namelen(prog, R)
+    codecrules.r_preslimit(prog, R, "R-C04-PRESLIMIT")
